@@ -1,10 +1,90 @@
 import GormModel.Drv.Util
+import GormModel.Model.Assoc
 open Lean
 namespace Gorm.Drv
+open Gorm.Assoc
+namespace HC12
 
-/-- line-protocol handler for C12 (ops are JSON arrays `[opname, args…]`); returns `none` for ops it does not own -/
+def parseNatList (j : Json) : Option (List Nat) := do
+  (← jArr? j).toList.mapM jNat?
+
+def parsePairs (j : Json) : Option (List (Nat × Nat)) := do
+  (← jArr? j).toList.mapM fun p => do
+    let a ← jArr? p
+    some (← jNat? (arg a 0), ← jNat? (arg a 1))
+
+def parseAssocOp (j : Json) : Option Op := do
+  let k ← jStr? (← (j.getObjVal? "op").toOption)
+  let kind ← match k with
+    | "append" => some OpKind.append
+    | "replace" => some OpKind.replace
+    | "delete" => some OpKind.delete
+    | "clear" => some OpKind.clear
+    | _ => none
+  let uns := ((j.getObjVal? "unscoped").toOption.bind jBool?).getD false
+  let vals ← (← jArr? (← (j.getObjVal? "vals").toOption)).toList.mapM parseNatList
+  some { kind := kind, unscoped := uns, vals := vals }
+
+def sortNat (l : List Nat) : List Nat := (l.toArray.qsort (· < ·)).toList
+def sortPairs (l : List (Nat × Nat)) : List (Nat × Nat) :=
+  (l.toArray.qsort (fun a b => a.1 < b.1 || (a.1 == b.1 && a.2 < b.2))).toList
+
+def obsJ (r : Rel) (os : List Nat) (op : Op) (s : St) : Json :=
+  Json.mkObj [
+    ("args", natListJ (if op.kind = .append ∨ op.kind = .replace then argIds os op.vals s else [])),
+    ("err", Json.bool s.err),
+    ("links", Json.arr ((sortPairs s.links.eraseDups).map (fun p => natListJ [p.1, p.2])).toArray),
+    ("targets", natListJ (sortNat s.targets.eraseDups)),
+    ("count", natJ (count r os s)),
+    ("find", natListJ (sortNat (findIds r os s))),
+    ("mem", Json.arr (os.map (fun o => natListJ (sortNat (memKeys s o)))).toArray),
+    ("stmts", strListJ s.log)]
+
+def runObs (r : Rel) (os : List Nat) : List Op → St → List Json
+  | [], _ => []
+  | op :: ops, s =>
+    let s' := step r os op { s with log := [] }
+    obsJ r os op s' :: runObs r os ops s'
+
+end HC12
+
+open HC12 in
+/-- ["assoc.run", {cls, card1, owners, links, targets, next, ops}] -> one observation per step;
+    ["assoc.ck", linked tuples, named tuples] -> composite-key upsert dedupe / Delete clean-up -/
 def handleC12 (op : String) (args : Array Json) : Option Json := do
   match op with
+  | "assoc.run" =>
+    let j := arg args 1
+    let cls ← match (← jStr? (← (j.getObjVal? "cls").toOption)) with
+      | "bt" => some Cls.bt
+      | "fk" => some Cls.fk
+      | "m2m" => some Cls.m2m
+      | _ => none
+    let card1 ← jBool? (← (j.getObjVal? "card1").toOption)
+    let os ← parseNatList (← (j.getObjVal? "owners").toOption)
+    let links ← parsePairs (← (j.getObjVal? "links").toOption)
+    let targets ← parseNatList (← (j.getObjVal? "targets").toOption)
+    let next ← jNat? (← (j.getObjVal? "next").toOption)
+    let ops ← (← jArr? (← (j.getObjVal? "ops").toOption)).toList.mapM parseAssocOp
+    -- optional "mem": [[owner, [keys]] …] = in-memory fields of operated records loaded with Preload
+    let memJ := ((j.getObjVal? "mem").toOption.bind jArr?).getD #[]
+    let memL ← memJ.toList.mapM fun e => do
+      let a ← jArr? e
+      some (← jNat? (arg a 0), ← parseNatList (arg a 1))
+    let mem0 : Nat → List Nat := fun o => ((memL.find? (·.1 == o)).map (·.2)).getD []
+    let s0 : St := { links := links, targets := targets, next := next, mem := mem0,
+                     memFk := fun o => if cls = .bt then (mem0 o).headD 0 else 0 }
+    some (Json.arr (runObs ⟨cls, card1⟩ os ops s0).toArray)
+  | "assoc.ck" =>
+    -- ["assoc.ck", linked tuples, named tuples] -> records created by Append(linked), in-memory field after Delete(named)
+    let tup (j : Json) : Option (List (List (List Char))) := do
+      (← jArr? j).toList.mapM fun t => do
+        (← jArr? t).toList.mapM fun c => (jStr? c).map String.toList
+    let linked ← tup (arg args 1)
+    let nmd ← tup (arg args 2)
+    let showT (l : List (List (List Char))) : Json :=
+      Json.arr (l.map (fun t => strListJ (t.map String.ofList))).toArray
+    some (Json.mkObj [("created", showT (distinctByKey linked [])), ("mem", showT (keepByKey linked nmd))])
   | _ => none
 
 end Gorm.Drv
